@@ -130,17 +130,17 @@ def dl_helpers(n: size, k: index, x: f32[4 * n + 8], y: i8[n]):
 
 
 # instructions with their own global C text (several distinct blocks in one library)
-@instr("dl_add1({d_data}, {s_data});", c_global="static void dl_add1(float *d, const float *s) { d[0] = s[0] + 1.0f; }")
+@instr("dl_add1(&{d_data}, &{s_data});", c_global="static void dl_add1(float *d, const float *s) { d[0] = s[0] + 1.0f; }")
 def dl_i_add1(d: [f32][1], s: [f32][1]):
     d[0] = s[0] + 1.0
 
 
-@instr("dl_mul2({d_data}, {s_data});", c_global="static void dl_mul2(float *d, const float *s) { d[0] = s[0] * 2.0f; }")
+@instr("dl_mul2(&{d_data}, &{s_data});", c_global="static void dl_mul2(float *d, const float *s) { d[0] = s[0] * 2.0f; }")
 def dl_i_mul2(d: [f32][1], s: [f32][1]):
     d[0] = s[0] * 2.0
 
 
-@instr("dl_neg({d_data}, {s_data});", c_global="static void dl_neg(float *d, const float *s) { d[0] = -s[0]; }")
+@instr("dl_neg(&{d_data}, &{s_data});", c_global="static void dl_neg(float *d, const float *s) { d[0] = -s[0]; }")
 def dl_i_neg(d: [f32][1], s: [f32][1]):
     d[0] = -s[0]
 
